@@ -275,6 +275,12 @@ class Cached:
                     if b_case != 0:
                         self.v("sentinel", "", "an exit of the left-recursive wrapper can return while the stored/returned best result is still the seed sentinel", lev)
                 elif trip_body and r is not None:
+                    # best replaced on the way out: only a failing best may be replaced by this trip's (failing) evaluation - an Ok best is the
+                    # grown result and has to be what the rule returns
+                    if b_case != 1:
+                        self.v("exit", "replaces-ok-best", "growth loop of parse_%s: an exit replaces the best result by %s without the best result being a "
+                               "failure on that path: a growth step that fails (e.g. a @check rejecting the longer match) discards the match grown so far"
+                               % (self.rule, mir.show(r)[:80]), lev)
                     # best replaced in the last trip: must have been re-stored
                     if not trip_ins or not eta.same(trip_ins[-1][1][0][2][2], r):
                         self.v("exit", "update-without-store", "best result is updated without being re-stored in the cache before the exit", lev)
